@@ -306,7 +306,7 @@ func (n *c38Node2) history() string {
 
 type c38Cfg struct {
 	kind, nActive, nPassive, nElems, lwwMode int
-	maxWorldsQuick, maxWorldsThorough       int
+	maxWorldsQuick, maxWorldsThorough        int
 }
 
 // c38Bounded explores breadth-first every execution of the configuration (ops of
@@ -358,6 +358,11 @@ func (c *c38Checker) c38Bounded(cfg c38Cfg) {
 					}
 					k := w2.key()
 					if _, ok := seen[k]; ok {
+						// same world reached on another path: the replica's own
+						// predecessor on this path is still a new (earlier, current) pair
+						c.successor(label, n.w.st[i], w2.st[i], i, func() string {
+							return n.history() + "; " + fmt.Sprintf("%s:%s", c38Node(i), op.str(cfg.kind, 0))
+						}, "previous state of the same replica")
 						continue
 					}
 					seen[k] = struct{}{}
